@@ -5,6 +5,7 @@ package props
 
 import (
 	"bytes"
+	"context"
 	"encoding/json"
 	"fmt"
 	"io"
@@ -15,6 +16,7 @@ import (
 	"strings"
 	"sync"
 	"sync/atomic"
+	"syscall"
 	"testing"
 	"time"
 
@@ -28,6 +30,9 @@ type c14Break struct {
 	Kind    string `json:"kind"`     // close | rst
 	DownMS  int    `json:"down_ms"`  // the sink stops listening for this long (0 = keeps listening)
 	PauseMS int    `json:"pause_ms"` // feeder pause after handing over message number After (lets the break happen between messages)
+	// StallMS > 0 (kind "stall"): the sink stops reading for this long, so that the producer blocks in the
+	// middle of a large message, then resets the connection
+	StallMS int `json:"stall_ms,omitempty"`
 }
 
 type c14Case struct {
@@ -38,7 +43,7 @@ type c14Case struct {
 }
 
 const c14Rule = "case = raw-socket producer configuration (tcp | udp, retry-max 0..4) + 1..300 messages (1 octet..48 KiB; JSON-like text rich in %d %s %% %! verbs, quotes, UTF-8 and arbitrary non-newline octets, each tagged with its index) " +
-	"+ fault plan (tcp): none, or 1..3 breaks (after message i the sink closes gracefully | resets the connection, optionally stops listening for a drawn downtime); the real producer.NewProducer(\"rawSocket\").Run() writes to a sink owned by the harness; " +
+	"+ fault plan (tcp): none, or 1..3 breaks (after message i the sink closes gracefully | resets the connection, optionally stops listening for a drawn downtime), or a stall plan (the sink stops reading while 30..60 messages of 48 KiB follow, so that a write blocks half-way, then resets); the real producer.NewProducer(\"rawSocket\").Run() writes to a sink owned by the harness; " +
 	"oracle without fault = the sink's byte stream is exactly concat(message + newline) (udp: one datagram per message, paced); with faults (every break index is a fault point) = the complete lines received over all connections are " +
 	"byte-identical input messages with strictly increasing indices (no duplicate, no corruption, no reordering), and once the sink is reachable again probe messages handed over one at a time resume delivery within retry-max+4 probes with nothing missing afterwards; " +
 	"non-trivial = a message contains '%' or is >= 4 KiB, or the plan has a break; distinct by hash"
@@ -89,6 +94,20 @@ func genC14(t *rapid.T) c14Case {
 		total += len(p)
 		c.Msgs = append(c.Msgs, p)
 	}
+	if c.Protocol == "tcp" && rapid.IntRange(0, 7).Draw(t, "stallplan") == 0 {
+		// a sink that stops reading: enough large messages follow the break to fill the socket buffers
+		nbig := rapid.IntRange(30, 60).Draw(t, "nbig")
+		for i := 0; i < nbig; i++ {
+			seed := rapid.SampledFrom(c14Snippets).Draw(t, "stallseed") + "stall"
+			var b []byte
+			for len(b) < 49152 {
+				b = append(b, seed...)
+			}
+			c.Msgs = append(c.Msgs, b[:49152])
+		}
+		c.Breaks = []c14Break{{After: rapid.IntRange(1, 3).Draw(t, "stallafter"), Kind: "stall", StallMS: rapid.SampledFrom([]int{80, 150, 300}).Draw(t, "stallms")}}
+		return c
+	}
 	if c.Protocol == "tcp" && rapid.IntRange(0, 2).Draw(t, "faulty") > 0 {
 		nb := rapid.IntRange(1, 3).Draw(t, "nbreaks")
 		last := -1
@@ -120,6 +139,7 @@ type c14Sink struct {
 	conns    int
 	breaks   []c14Break
 	nextBrk  int
+	brkDone  int // breaks fully executed (connection closed, downtime over)
 	stopped  bool
 	wg       sync.WaitGroup
 	progress chan struct{}
@@ -134,8 +154,17 @@ func (s *c14Sink) notify() {
 
 func (s *c14Sink) listen() error {
 	var err error
+	lc := net.ListenConfig{}
+	for _, b := range s.breaks {
+		if b.Kind == "stall" {
+			// a small receive window, inherited by accepted connections, lets the producer's writes block early
+			lc.Control = func(network, address string, c syscall.RawConn) error {
+				return c.Control(func(fd uintptr) { syscall.SetsockoptInt(int(fd), syscall.SOL_SOCKET, syscall.SO_RCVBUF, 4096) })
+			}
+		}
+	}
 	for i := 0; i < 50; i++ {
-		s.ln, err = net.Listen("tcp", s.addr)
+		s.ln, err = lc.Listen(context.Background(), "tcp", s.addr)
 		if err == nil {
 			return nil
 		}
@@ -192,7 +221,11 @@ func (s *c14Sink) serve(conn net.Conn) {
 					s.mu.Unlock()
 					ln.Close()
 				}
-				if brk.Kind == "rst" {
+				if brk.Kind == "stall" {
+					// stop reading: the peer's writes fill the socket buffers and block; then reset
+					time.Sleep(time.Duration(brk.StallMS) * time.Millisecond)
+				}
+				if brk.Kind == "rst" || brk.Kind == "stall" {
 					if tc, ok := conn.(*net.TCPConn); ok {
 						tc.SetLinger(0)
 					}
@@ -210,6 +243,9 @@ func (s *c14Sink) serve(conn net.Conn) {
 						}
 					}
 				}
+				s.mu.Lock()
+				s.brkDone++
+				s.mu.Unlock()
 				s.notify()
 				return
 			}
@@ -384,15 +420,20 @@ func runC14(c *c14Case) (v verdict, sig string, err error) {
 	}
 	// the fault plan is over: breaks that were not reached are disarmed before the probes start
 	sink.mu.Lock()
+	triggered := sink.nextBrk
 	sink.nextBrk = len(sink.breaks)
 	sink.mu.Unlock()
-	maxDown := 0
-	for _, b := range c.Breaks {
-		if b.DownMS > maxDown {
-			maxDown = b.DownMS
+	// breaks that have begun (a stall, a downtime) must be over before the probes start
+	for i := 0; i < 400; i++ {
+		sink.mu.Lock()
+		done := sink.brkDone
+		sink.mu.Unlock()
+		if done >= triggered {
+			break
 		}
+		time.Sleep(10 * time.Millisecond)
 	}
-	time.Sleep(time.Duration(maxDown+30) * time.Millisecond)
+	time.Sleep(30 * time.Millisecond)
 	// probes, handed over one at a time: the next one follows when the previous one arrived, or when the
 	// producer has taken it from the channel and had time to write (and retry) it
 	nProbes := c.RetryMax + 4 + 3
